@@ -1626,9 +1626,15 @@ func parseFieldNumValue(s string) (float64, int32, error) {
 		return 0, Field_Type_Unknown, fmt.Errorf("invalid number")
 	}
 	if ch == 'f' && len(s) > 1 {
-		// Unsigned integer value
+		// Float value with the f suffix
 		ss := s[:len(s)-1]
-		n := fastfloat.ParseBestEffort(ss)
+		if !IsValidNumber(ss) {
+			return 0, Field_Type_Unknown, fmt.Errorf("invalid field value")
+		}
+		n, err := parseValidFloat(ss)
+		if err != nil {
+			return 0, Field_Type_Unknown, err
+		}
 		return n, Field_Type_Float, nil
 	}
 	if s == "t" || s == "T" || s == "true" || s == "True" || s == "TRUE" {
